@@ -352,8 +352,11 @@ class BaseClient:
         mode |= parse_rw[s[0:2]] << 6
         mode |= parse_rw[s[3:5]] << 3
         mode |= parse_rw[s[6:8]]
+        # upper case: the special bit without the execute bit
         if s[2] == "s":
             mode |= 0o4100
+        elif s[2] == "S":
+            mode |= 0o4000
         elif s[2] == "x":
             mode |= 0o0100
         elif s[2] != "-":
@@ -361,12 +364,16 @@ class BaseClient:
 
         if s[5] == "s":
             mode |= 0o2010
+        elif s[5] == "S":
+            mode |= 0o2000
         elif s[5] == "x":
             mode |= 0o0010
         elif s[5] != "-":
             raise ValueError
 
         if s[8] == "t":
+            mode |= 0o1000
+        elif s[8] == "T":
             mode |= 0o1000
         elif s[8] == "x":
             mode |= 0o0001
